@@ -212,6 +212,80 @@ def paren_rule(chk, fx):
     chk.floor('conditional-expression templates of the transpiler', n, 2)
 
 
+def prelude_rule(chk, fx):
+    import itertools
+    from sa.kinds import prelude as P
+    chk.rule('C17-prelude', 'the runtime modules are appended to the script prelude with their `from _erg_x import y` lines deleted, so for every order in which a program can trigger the '
+                            'loaders (all permutations of all subsets of PyScriptGenerator::load_*_if_not) a module is appended only after the modules defining the names it needs while '
+                            'it is being defined (base classes such as MutType / Int / Nat); and once the built-in types are loaded every deleted import is defined by the end of the '
+                            'prelude — `r = 0..3` before any literal put _erg_int.py ahead of _erg_type.py: NameError: name \'MutType\' is not defined')
+    mods = P.module_table(F.REPO)
+    by_text = {src: m for m, (src, _, _) in mods.items()}
+    lds = P.loaders(fx, TR, by_text)
+    if not chk.need(len(lds) >= 5, 'PyScriptGenerator: fewer than 5 load_*_if_not functions found (%d)' % len(lds)):
+        return
+    unknown = [(k, op) for k, ops in lds.items() for op in _flat(ops) if op[0] == 'unknown' or (op[0] == 'append' and op[1] == '?')]
+    if unknown:
+        chk.need(False, 'loader with an unrecognised statement: %s' % (unknown[:3],))
+        return
+    # names whose import line replace_import deletes
+    rp = fx.fn(TR, 'PyScriptGenerator::replace_import')
+    stripped = set()
+    for c in T.calls(rp['body']):
+        if c.get('k') == 'MCall' and c['n'] == 'replace' and c['a']:
+            v = (T.peel(c['a'][0]).get('v') or {}).get('str') or ''
+            if ' import ' in v:
+                stripped.add(v.split(' import ')[1].strip())
+    chk.floor('import lines deleted by replace_import', len(stripped), 10)
+    entries = [k for k in lds if any(op[0] == 'append' for op in _flat(lds[k])) or any(op[0] == 'call' for op in _flat(lds[k]))]
+    norders = 0
+    deftime, calltime = {}, {}
+    for r in range(1, len(entries) + 1):
+        for order in itertools.permutations(entries, r):
+            norders += 1
+            bad, seq = P.simulate(order, lds, mods, stripped)
+            for m, name, line, before in bad:
+                deftime.setdefault((m, name), (order, before, line))
+            if 'load_builtin_types_if_not' in order:
+                defined = set()
+                for m in seq:
+                    if m in mods:
+                        defined |= mods[m][1]
+                for m in seq:
+                    if m not in mods:
+                        continue
+                    for node_name in _imported_names(mods[m][0]):
+                        if node_name in stripped and node_name not in defined:
+                            calltime.setdefault((m, node_name), order)
+    chk.count('loader orders simulated', norders)
+    for (m, name), (order, before, line) in sorted(deftime.items()):
+        chk.bad('C17-prelude', 'PyScriptGenerator', 'deftime:%s needs %s' % (m, name), '%s.py is appended before the module that defines `%s`, which it needs at line %d while being defined '
+                '(loader order %s; prelude so far: %s): the script stops with NameError before the program starts' % (m, name, line, ' > '.join(o[5:-7] for o in order), ', '.join(before) or 'empty'),
+                TR, None)
+    for (m, name), order in sorted(calltime.items()):
+        chk.bad('C17-prelude', 'PyScriptGenerator', 'calltime:%s needs %s' % (m, name), '%s.py imports `%s` from a runtime module, the import line is deleted and no module defining it is '
+                'ever appended (loader order %s): a NameError as soon as that code runs' % (m, name, ' > '.join(o[5:-7] for o in order)), TR, None)
+    if not deftime and not calltime:
+        chk.ok('C17-prelude', 'all-orders', sample='%d loader orders: every module follows its definition-time prerequisites' % norders)
+
+
+def _flat(ops):
+    for op in ops:
+        yield op
+        if op[0] == 'if':
+            yield from _flat(op[3])
+            yield from _flat(op[4])
+
+
+def _imported_names(src):
+    import ast
+    out = []
+    for st in ast.walk(ast.parse(src)):
+        if isinstance(st, ast.ImportFrom) and (st.module or '').startswith('_erg_'):
+            out += [a.name for a in st.names]
+    return out
+
+
 def run(chk):
     fx = F.Facts()
     chk.rule('C17-escape', 'every character the lexer\'s escape handlers can put into a string token that cannot stand raw inside a Python "..." literal '
@@ -307,5 +381,6 @@ def run(chk):
         chk.ok('C17-escape', 'nul-fixed-width')
     fresh_rule(chk, fx)
     paren_rule(chk, fx)
+    prelude_rule(chk, fx)
     return ('Table rule across crates: the characters produced by the escape arms of the three string lexers (typed HIR) against the replace chain of PyScriptGenerator::escape_str. '
             'Behavioural equivalence of the transpiled script and the bytecode is not decided.'), {'exhaustive': True}
